@@ -474,7 +474,10 @@ structure Func where
   overloads : List Sig        -- `FunctionOverload.signature`, in source order
   deriving DecidableEq, Repr, Inhabited
 
-/-- one `def` statement in a scope: name, decorated with `typing.overload`?, its arguments -/
+/-- one `def` statement in a scope: name, its arguments, and `isOverload` = one of its decorators
+*resolves* (`parent.expandName`) to `typing.overload` / `typing_extensions.overload` — a fact about the
+resolved name, not the spelling (`@overload`, `@typing.overload`, `@t.overload`, a renamed import …);
+name resolution itself belongs to the `Names` layer (C04). -/
 structure Def where
   name : Nat
   isOverload : Bool
